@@ -15,7 +15,7 @@ BASE_FLAGS = ["-O0", "-g0"]             # ~2000 template instantiations on each 
 HARNESS_FLAGS = list(BASE_FLAGS)
 # harness/c20.cpp is compiled as NPARTS translation units in parallel (-DC20_PART=k) by run() below; check.py then compiles
 # main() (-DC20_PART=-1) and links them
-NPARTS = 24
+NPARTS = 26
 
 
 def _probe(code):
@@ -36,6 +36,14 @@ BASE_FLAGS.append("-DC20_HAS_BF_MEMPTR_RV=%d" % _probe(
     "#include <etl/functional.hpp>\nstruct S { int d; long q(int) && { return 0; } long c(int) const&& { return 0; } };\n"
     "long use(S s) { auto g = etl::bind_front(&S::q, s); auto const h = etl::bind_front(&S::c, s); auto m = etl::bind_front(&S::d, s);\n"
     "  auto const n = etl::bind_front(&S::d, s); int v = etl::move(m)() + etl::move(n)(); return etl::move(g)(1) + etl::move(h)(2) + v; }\n"))
+BASE_FLAGS.append("-DC20_HAS_BF_MEMPTR_LV=%d" % _probe(
+    "#include <etl/functional.hpp>\nstruct S { int d; long q(int) & { return 0; } };\n"
+    "long use(S s) { auto g = etl::bind_front(&S::q, s); auto m = etl::bind_front(&S::d, s); return g(1) + m(); }\n"))
+BASE_FLAGS.append("-DC20_HAS_TCAT0=%d" % _probe("#include <etl/tuple.hpp>\nauto use() { return etl::tuple_cat(); }\n"))
+BASE_FLAGS.append("-DC20_HAS_MFT_NARROW=%d" % _probe(
+    "#include <etl/tuple.hpp>\n#include <etl/utility.hpp>\nstruct A { int a; int b; int c; }; struct N { N(short, short) {} };\n"
+    "int use(long x) { auto a = etl::make_from_tuple<A>(etl::tuple<long, long>{x, x}); auto n = etl::make_from_tuple<N>(etl::tuple<int, int>{int(x), 2});\n"
+    "  (void)n; return a.a; }\n"))
 HARNESS_FLAGS = list(BASE_FLAGS)
 
 
@@ -96,12 +104,19 @@ RULE = ("Stateless lines: (pair cmp) every pair of pairs over {0,1,2} for int el
         "relations; (pair value ops) 23 operations (default construction, construct from lvalues/rvalues, copy, move, converting "
         "copy/move, copy/move/converting assignment, member/free/self swap, make_pair, get<I> through the four reference "
         "qualifications, get<T> through lvalue / const lvalue / rvalue, structured binding) x all 36 combinations of element kinds "
-        "{int, instrumented copy+move class, move-only, copy-only, int&, int const}; (tuple) equality of every pair of tuples over "
+        "{int, instrumented copy+move class, move-only, copy-only, int&, int const}; (pair with reference-to-class elements) the "
+        "same 23 operations x 16 combinations of the element kinds {instrumented&, instrumented const&} with each other and with "
+        "{int, instrumented class, int&} - construction binds the reference (no copy, nothing moved), assignment assigns through "
+        "it, and forward<T&> of a source element is an lvalue (1 counted copy, the referent keeps its value); (pair converting "
+        "assignment between different element kinds) xassign `a = as_const(b)` and xmassign `a = move(b)` for 10 (destination "
+        "kinds, source kinds) combinations: pair<Trk,Trk> from pair<Trk&,Trk&> / pair<Trk const&,Trk const&> / pair<Trk,Trk&>, "
+        "pair<Trk&,Trk&> from pair<Trk,Trk> / pair<Trk const&,..>, per-element mixed forms, pair<int,int&> from pair<int&,int>, and "
+        "one non-assignable destination (n/a), plus 600 (thorough 6000) random lines over these; (tuple) equality of every pair of tuples over "
         "{0,1,2} with arity 0..3; 31 value operations (the pair's, plus make_from_tuple, forward_as_tuple, tie, tie(...) = t, "
         "construction from a pair; converting constructors / assignments widen / narrow the int elements and keep the others) x 56 "
         "element-kind lists: every list of length 1 and 2 (all 36 combinations), the 6 uniform triples and 8 mixed triples in "
         "which every kind occurs at every position; apply through the four tuple categories x the four callee categories and with "
-        "a pointer to member function / data whose object is the first element; tuple_cat of 1..3 tuples of arity 1..2 of every "
+        "a pointer to member function / data whose object is the first element; tuple_cat of 0..3 tuples of arity 1..2 of every "
         "uniform kind and of 7 mixed-kind combinations, handed over as lvalues, const lvalues, rvalues and const rvalues; (invoke) "
         "function / function pointer / lambda / function object in four categories with 0..2 forwarded arguments in all category "
         "combinations / member function and member data pointers through object, derived object, reference_wrapper, pointer, "
@@ -112,14 +127,24 @@ RULE = ("Stateless lines: (pair cmp) every pair of pairs over {0,1,2} for int el
         "wrapper, and bind_front of a pointer to member with the object / a pointer / a pointer to const / a reference_wrapper "
         "bound; not_fn called directly, through a copy, through a moved wrapper, around a pointer to member, and the stateless "
         "not_fn<ConstFn>() around a function, a member function and a data member; inplace_function around a pointer to member "
-        "function / data) every wrapper qualification x every argument category combination.  Observed per line: values, what a "
+        "function / data) every wrapper qualification x every argument category combination; (mft) make_from_tuple<T> for 8 target "
+        "kinds that tell T(x...) from T{x...} (constructors only; + initializer_list<int>; + initializer_list<long>; + a non-viable "
+        "initializer_list<Tag>; an aggregate; explicit constructors; an aggregate of ints from long elements and short parameters "
+        "from int elements, i.e. narrowing) x arity 0..3 x the four tuple categories, from a tuple and from a pair, observed: which "
+        "constructor ran and what it received; and the list-initialisation T{x...} itself compiled directly (form=brace) to validate "
+        "Spec.listInit against the compiler.  Observed per line: values, what a "
         "move leaves in the source (-1 for instrumented elements), the number of copies, the call log (target, category of the "
         "target object, per argument the category seen by a forwarding parameter, whether it arrived as a reference_wrapper, and "
-        "its value) and the result.  Histories on inplace_function: 4 named objects (one of smaller capacity), closures of 5 sizes "
-        "up to the capacity, trivially and non-trivially copyable; exhaustive: every sequence of 3 (thorough: 4) operations from an "
+        "its value) and the result.  Histories on inplace_function: 6 named objects of three specialisations (0..2 capacity 32, 3..4 "
+        "capacity 16, 5 capacity 24 / alignment 8), closures of 5 sizes up to the capacity, trivially and non-trivially copyable; "
+        "conversion matrix: (destination, source) over every pair of specialisations that compiles (same type 0<-1, 3<-4; smaller "
+        "source 0<-3, 0<-5, ...; a larger source capacity is a static_assert failure) x source {empty, holding one of 3 closure "
+        "types} x destination {empty, holding} x source expression {non-const lvalue, const lvalue, rvalue, const rvalue} x "
+        "{construction, assignment}, then operator bool / == nullptr / != nullptr and calls of both objects; self-assignment "
+        "through the four categories; exhaustive: every sequence of 3 (thorough: 4) operations from an "
         "alphabet of 21 (construct from closure / empty / copy / move, copy/move/self assignment, reset, member swap, free swap, "
         "self-swap, call), each followed by a call of every object, operator bool, == nullptr and != nullptr; random (VERIF_SEED): "
-        "histories of 10-40 operations over all operations, objects and closure types.  Observed per line: result or "
+        "histories of 10-40 operations over all operations (source categories included), objects and closure types.  Observed per line: result or "
         "bad_function_call, emptiness of every object, number of live closure objects (lifetime registry), the call log.  A case is "
         "non-trivial when its expected output is not `n/a` and, for a history, when it contains a call of a non-empty object; "
         "distinct = distinct case text.")
@@ -130,7 +155,10 @@ ASSUMPTIONS = ["libstdc++ 12 std::pair / std::tuple / std::invoke / std::referen
                "not_fn<ConstFn>() (C++26) has none in libstdc++ 12: the reference is !std::invoke(ConstFn, args...)",
                "for element types with unordered values (double with NaN) the pair relations are claimed only outside the input class "
                "Spec.unorderedPair (known finding F-C20-pair-rel-unordered; the class is exact: pair_rels_dbl_iff)",
-               "an object is not copy- or move-constructed from itself (precondition `Spec.valid`)"]
+               "an object is not copy- or move-constructed from itself (precondition `Spec.valid`)",
+               "inplace_function: construction / assignment from a specialisation of LARGER capacity or stricter alignment is a "
+               "static_assert failure of the header (is_valid_inplace_destination), i.e. not a program: not generated",
+               "make_from_tuple target kinds: at most three tuple elements (the constructors the target types of the harness have)"]
 TRUSTED = ["hand model Tetl/C20/Model.lean tied to the source by the correspondence run (R1) on every run",
            "spec Tetl/C20/Spec.lean validated against libstdc++ (R2) on every run",
            "the instrumented element and callable types of harness/c20.cpp (copy counter, moved-from marker, call log, lifetime registry)",
@@ -144,6 +172,16 @@ SEARCH_CAP = 400000
 KINDS = [0, 1, 2, 3, 4, 5]
 PAIR_OPS = ["dflt", "ctor", "ctorr", "copy", "move", "assign", "massign", "swap", "fswap", "selfswap", "make", "maker",
             "get", "getc", "getr", "getcr", "sb", "conv", "convr", "cassign", "cmassign", "gett", "gettr"]
+# pair lines only: element kinds 6 (reference to the instrumented class) and 7 (const reference to it); harness/c20.cpp pair_k2 /
+# pairx_line instantiate them with each other and with the partner kinds {int, instrumented class, int&}
+PAIR_REF_KINDS = [6, 7]
+PAIR_REF_PARTNERS = [0, 1, 4]
+PAIR_REF_COMBOS = ([[k1, k2] for k1 in PAIR_REF_KINDS for k2 in PAIR_REF_KINDS]
+                   + [c for r in PAIR_REF_KINDS for q in PAIR_REF_PARTNERS for c in ([r, q], [q, r])])
+# converting assignment between pairs of different element kinds (harness/c20.cpp pair_xline): (destination kinds, source kinds)
+XOPS = ["xassign", "xmassign"]
+XKINDS = [([1, 1], [6, 6]), ([6, 6], [1, 1]), ([1, 1], [7, 7]), ([6, 6], [7, 7]), ([6, 1], [1, 6]), ([1, 6], [6, 6]),
+          ([1, 6], [1, 7]), ([0, 4], [4, 0]), ([7, 1], [1, 1]), ([1, 1], [1, 6])]
 TUPLE_OPS = ["dflt", "ctor", "ctorr", "copy", "move", "assign", "massign", "swap", "fswap", "selfswap", "make", "maker",
              "get", "getc", "getr", "getcr", "sb", "gett", "gettr", "mft", "mftr", "fwd", "tie", "tieassign", "tiemassign",
              "conv", "convr", "cassign", "cmassign", "convp", "convpr"]
@@ -156,8 +194,9 @@ TCAT_MIXED = [([0, 2, 4, 3, 5], [2, 1, 2]), ([1, 2, 1], [1, 2]), ([5, 4, 1, 3, 0
               ([4, 4, 1], [1, 2]), ([5, 0, 5, 2], [1, 2, 1]), ([1, 0, 3], [2, 1])]
 TYPEQ = ["make_pair_unwraps_refwrap", "make_tuple_unwraps_refwrap", "tuple_cat_value_types", "tuple_cat_keeps_ref",
          "tuple_cat_keeps_nested", "tuple_copy_assignable", "tuple_move_assignable", "tuple_get_by_type",
-         "tuple_structured_binding", "pair_ref_copy_assignable", "pair_get_by_type", "tuple_converting_ctor"]
-TYPE_FINDINGS = {"tuple_cat_keeps_ref": "F-C20-tuple-cat-decays", "tuple_cat_keeps_nested": "F-C20-tuple-cat-decays"}
+         "tuple_structured_binding", "pair_ref_copy_assignable", "pair_get_by_type", "tuple_converting_ctor", "tuple_cat_no_args",
+         "tuple_cat_pair_elements"]
+TYPE_FINDINGS = {}
 NAN = 9
 
 
@@ -180,35 +219,55 @@ def ifn_alphabet():
 TAIL = ["ifn op=call i=0 x=5", "ifn op=call i=1 x=6", "ifn op=bool i=0", "ifn op=eqnull i=1", "ifn op=nenull i=0"]
 
 
+# the named inplace_function objects of a history: class 0 = capacity 32 (objects 0..2), class 1 = capacity 16 (3..4),
+# class 2 = capacity 24 / alignment 8 (5); closure types ty = 2*sizeIndex + nontrivial, sizes 8, 12, 16, 24, 32
+IFN_OBJS = 6
+IFN_CLS = [0, 0, 0, 1, 1, 2]
+IFN_NTY = {0: 10, 1: 6, 2: 8}            # closure types that fit the capacity of the class
+
+
+def ifn_from_ok(i, j):
+    """object i can be constructed / assigned from object j: same specialisation, or capacity 32 from a smaller one"""
+    return IFN_CLS[i] == IFN_CLS[j] or IFN_CLS[i] == 0
+
+
+def ifn_from_line(rnd, assign, i, j):
+    r = rnd.random()
+    if r < 0.2:
+        return "ifn op=%s i=%d j=%d" % ("assign" if assign else "ctor_copy", i, j)
+    if r < 0.4:
+        return "ifn op=%s i=%d j=%d" % ("massign" if assign else "ctor_move", i, j)
+    return "ifn op=%s i=%d j=%d q=%d" % ("assign_from" if assign else "ctor_from", i, j, rnd.randrange(4))
+
+
 def random_history(rnd):
     lines = ["new"]
     for _ in range(rnd.randint(10, 40)):
         r = rnd.random()
-        i = rnd.randrange(4)
-        j = rnd.randrange(4)
-        small_ty = rnd.randrange(6)
-        ty = small_ty if i == 3 else rnd.randrange(10)
+        i = rnd.randrange(IFN_OBJS)
+        j = rnd.randrange(IFN_OBJS)
+        ty = rnd.randrange(IFN_NTY[IFN_CLS[i]])
         ident = rnd.randint(1, 9)
         if r < 0.14:
             lines.append("ifn op=ctor_fn i=%d ty=%d id=%d" % (i, ty, ident))
         elif r < 0.18:
             lines.append("ifn op=%s i=%d" % (rnd.choice(["ctor_empty", "ctor_null"]), i))
         elif r < 0.30:
-            i = rnd.randrange(3)
-            while j == i:
-                j = rnd.randrange(4)
-            lines.append("ifn op=%s i=%d j=%d" % (rnd.choice(["ctor_copy", "ctor_move"]), i, j))
+            while j == i or not ifn_from_ok(i, j):
+                i = rnd.randrange(IFN_OBJS)
+                j = rnd.randrange(IFN_OBJS)
+            lines.append(ifn_from_line(rnd, False, i, j))
         elif r < 0.46:
-            if i == 3:
-                j = 3
-            lines.append("ifn op=%s i=%d j=%d" % (rnd.choice(["assign", "massign"]), i, j))
+            while not ifn_from_ok(i, j):
+                j = rnd.randrange(IFN_OBJS)
+            lines.append(ifn_from_line(rnd, True, i, j))
         elif r < 0.52:
             lines.append("ifn op=assign_fn i=%d ty=%d id=%d" % (i, ty, ident))
         elif r < 0.56:
             lines.append("ifn op=assign_null i=%d" % i)
         elif r < 0.70:
-            if i == 3 or j == 3:
-                i = j = 3 if rnd.random() < 0.5 else rnd.randrange(3)
+            while IFN_CLS[i] != IFN_CLS[j]:
+                j = rnd.randrange(IFN_OBJS)
             if rnd.random() < 0.25:
                 j = i
             lines.append("ifn op=%s i=%d j=%d" % (rnd.choice(["swap", "fswap"]), i, j))
@@ -216,9 +275,46 @@ def random_history(rnd):
             lines.append("ifn op=call i=%d x=%d" % (i, rnd.randint(0, 9)))
         else:
             lines.append("ifn op=%s i=%d" % (rnd.choice(["bool", "eqnull", "nenull"]), i))
-    for k in range(4):
+    for k in range(IFN_OBJS):
         lines.append("ifn op=call i=%d x=%d" % (k, k))
     return lines
+
+
+def ifn_conversion_matrix():
+    """construction / assignment of one inplace_function from another: (destination, source) over every pair of
+    specialisations that compiles - equal capacity (same type: 0<-1, 3<-4), smaller source capacity (0<-3, 0<-5; a LARGER source
+    capacity is a static_assert failure, not a program) - x source state {empty, holding a closure of 3 types} x destination
+    state {empty, holding} x source category {non-const lvalue, const lvalue, rvalue, const rvalue} x {construction,
+    assignment}; afterwards emptiness of both (operator bool, == nullptr, != nullptr) and a call of both, twice for the
+    destination (the copy has its own call counter)"""
+    out = []
+    for i, j in ((0, 1), (0, 3), (0, 5), (3, 4), (1, 4), (2, 5)):
+        nty = IFN_NTY[IFN_CLS[j]]
+        for sty in (None, 0, 3, nty - 1):
+            for dst_holds in (False, True):
+                for q in range(4):
+                    for op in ("ctor_from", "assign_from"):
+                        h = ["new"]
+                        if sty is not None:
+                            h += ["ifn op=ctor_fn i=%d ty=%d id=%d" % (j, sty, 4 + q), "ifn op=call i=%d x=1" % j]
+                        if dst_holds:
+                            h += ["ifn op=ctor_fn i=%d ty=%d id=%d" % (i, 5, 9)]
+                        h += ["ifn op=%s i=%d j=%d q=%d" % (op, i, j, q)]
+                        for k in (i, j):
+                            h += ["ifn op=bool i=%d" % k, "ifn op=eqnull i=%d" % k, "ifn op=nenull i=%d" % k]
+                        h += ["ifn op=call i=%d x=2" % i, "ifn op=call i=%d x=3" % j, "ifn op=call i=%d x=4" % i]
+                        out.append(h)
+    # self-assignment through the four categories (same object on both sides), every class
+    for i in (0, 3, 5):
+        for sty in (None, 1, 4):
+            for q in range(4):
+                h = ["new"]
+                if sty is not None:
+                    h += ["ifn op=ctor_fn i=%d ty=%d id=%d" % (i, sty, 3), "ifn op=call i=%d x=1" % i]
+                h += ["ifn op=assign_from i=%d j=%d q=%d" % (i, i, q), "ifn op=bool i=%d" % i, "ifn op=eqnull i=%d" % i,
+                      "ifn op=call i=%d x=2" % i]
+                out.append(h)
+    return out
 
 
 def generate(tier, seed):
@@ -255,6 +351,30 @@ def generate(tier, seed):
         b = [rnd.randint(0, 99), rnd.randint(0, 99)]
         add("pair op=%s t=%s a=%s b=%s" % (rnd.choice(PAIR_OPS), fmt_list([rnd.choice(KINDS), rnd.choice(KINDS)]), fmt_list(a), fmt_list(b)),
             "pair/random")
+    # ---- pair with reference-to-instrumented elements (kinds 6, 7): every op x the instantiated kind combinations; converting
+    # assignments between pairs of different kinds.  A separate generator (same seed) keeps the other random streams unchanged.
+    rnd2 = random.Random("C20-pair-ref-%s" % seed)
+
+    def ref_tag(ks):
+        return "-tref" if 6 in ks else "-tcref"
+    for op in PAIR_OPS:
+        for ks in PAIR_REF_COMBOS:
+            for a, b in samples:
+                add("pair op=%s t=%s a=%s b=%s" % (op, fmt_list(ks), fmt_list(a), fmt_list(b)), "pair/" + op + ref_tag(ks))
+    for op in XOPS:
+        for kd, ks in XKINDS:
+            for a, b in samples:
+                add("pair op=%s t=%s u=%s a=%s b=%s" % (op, fmt_list(kd), fmt_list(ks), fmt_list(a), fmt_list(b)), "pair/" + op)
+    for _ in range(6000 if thorough else 600):
+        a = [rnd2.randint(0, 99), rnd2.randint(0, 99)]
+        b = [rnd2.randint(0, 99), rnd2.randint(0, 99)]
+        if rnd2.random() < 0.3:
+            kd, ks = rnd2.choice(XKINDS)
+            add("pair op=%s t=%s u=%s a=%s b=%s" % (rnd2.choice(XOPS), fmt_list(kd), fmt_list(ks), fmt_list(a), fmt_list(b)),
+                "pair/random-x")
+        else:
+            add("pair op=%s t=%s a=%s b=%s" % (rnd2.choice(PAIR_OPS), fmt_list(rnd2.choice(PAIR_REF_COMBOS)), fmt_list(a), fmt_list(b)),
+                "pair/random-ref")
     # ---- tuple equality: all pairs of tuples over the domain, arity 0..3 (arity 0: the one empty tuple)
     for n in (0, 1, 2, 3):
         for a in itertools.product(V, repeat=n):
@@ -293,6 +413,8 @@ def generate(tier, seed):
             for ts in shapes:
                 v = list(range(1, sum(ts) + 1))
                 add("tcat k=%s q=%d ts=%s v=%s" % (fmt_list([t] * sum(ts)), q, fmt_list(ts), fmt_list(v)), "tcat")
+    for q in range(4):
+        add("tcat k=[] q=%d ts=[] v=[]" % q, "tcat/none")     # tuple_cat() with no argument
     for ks, ts in TCAT_MIXED:
         for q in range(4):
             add("tcat k=%s q=%d ts=%s v=%s" % (fmt_list(ks), q, fmt_list(ts), fmt_list(list(range(1, len(ks) + 1)))), "tcat/mixed")
@@ -377,6 +499,23 @@ def generate(tier, seed):
     for c in range(4):
         for v in (0, 7):
             add("nfc f=memdata c=%d v=%d" % (c, v), "nfc")
+    # ---- make_from_tuple into target types that tell T(x...) from T{x...}: 8 target kinds x arity 0..3 x the four tuple
+    # categories, from a tuple and (arity 2) from a pair; `form=brace`: the list-initialisation itself, compiled directly
+    for tg in range(8):
+        for n in range(4):
+            for base in ([3, 7, 2], [1, 1, 1], [0, 5, 9]):
+                a = base[:n]
+                for q in range(4):
+                    add("mft tg=%d q=%d a=%s" % (tg, q, fmt_list(a)), "mft/paren")
+                    if n == 2:
+                        add("mft tg=%d q=%d a=%s src=pair" % (tg, q, fmt_list(a)), "mft/paren-pair")
+                add("mft tg=%d q=0 a=%s form=brace" % (tg, fmt_list(a)), "mft/brace")
+                if n == 0:
+                    break
+    for _ in range(2000 if thorough else 200):
+        n = rnd.randrange(4)
+        add("mft tg=%d q=%d a=%s%s" % (rnd.randrange(8), rnd.randrange(4), fmt_list([rnd.randint(0, 99) for _ in range(n)]),
+                                       " src=pair" if n == 2 and rnd.random() < 0.3 else ""), "mft/random")
     for q in TYPEQ:
         add("typeq q=%s" % q, "typeq")
     # ---- inplace_function histories: every sequence of `depth` operations of the alphabet
@@ -390,6 +529,18 @@ def generate(tier, seed):
                     "massign i=3 j=3", "swap i=3 j=3", "fswap i=3 j=3", "assign_null i=3"):
             add(["new", "ifn op=ctor_fn i=3 ty=%d id=%d" % (ty, ty + 1), "ifn op=call i=3 x=1", "ifn op=" + op2,
                  "ifn op=call i=3 x=2", "ifn op=call i=0 x=3", "ifn op=call i=1 x=4", "ifn op=call i=2 x=5"], "ifn/small")
+    for h in ifn_conversion_matrix():
+        add(h, "ifn/conv-matrix")
+    # swap / copy / move between the two capacity-16 objects and on the capacity-24 object
+    for ty in range(6):
+        for op2 in ("swap i=3 j=4", "fswap i=4 j=3", "ctor_copy i=4 j=3", "ctor_move i=4 j=3", "assign i=4 j=3", "massign i=4 j=3"):
+            add(["new", "ifn op=ctor_fn i=3 ty=%d id=%d" % (ty, ty + 1), "ifn op=call i=3 x=1", "ifn op=" + op2,
+                 "ifn op=call i=3 x=2", "ifn op=call i=4 x=3", "ifn op=bool i=3", "ifn op=bool i=4"], "ifn/small2")
+    for ty in range(8):
+        for op2 in ("ctor_copy i=1 j=5", "ctor_move i=1 j=5", "assign i=2 j=5", "massign i=0 j=5", "assign i=5 j=5", "massign i=5 j=5",
+                    "swap i=5 j=5", "fswap i=5 j=5", "assign_null i=5"):
+            add(["new", "ifn op=ctor_fn i=5 ty=%d id=%d" % (ty, ty + 1), "ifn op=call i=5 x=1", "ifn op=" + op2,
+                 "ifn op=call i=5 x=2", "ifn op=call i=0 x=3", "ifn op=call i=1 x=4", "ifn op=call i=2 x=5"], "ifn/cap24")
     for ty in range(10):
         for i in range(3):
             add(["new", "ifn op=ctor_fn i=%d ty=%d id=%d" % (i, ty, ty), "ifn op=call i=%d x=1" % i,
@@ -438,7 +589,8 @@ def group_of(case):
 
 CLAIMED = True
 TECHNIQUE = ("Lean 4 proofs about a hand model + differential testing.  Proved without bounds: the lexicographic pair relations, tuple "
-             "equality, tuple_cat, the inplace_function vtable-thunk machine (with object lifetimes, free swap and nullptr comparison) "
+             "equality, tuple_cat, the inplace_function vtable-thunk machine (with object lifetimes, construction / assignment from a "
+             "source of any value category and of another specialisation, free swap and nullptr comparison) "
              "refining an owner semantics for all histories, and reference_wrapper / function_ref as objects (pointer members executed "
              "forwards = target resolved backwards, for all histories of construction, copy and assignment).  The forwarding wrappers "
              "(invoke, reference_wrapper, function_ref, bind_front, not_fn, apply - also around pointers to members) are one-line "
@@ -461,9 +613,13 @@ LEVEL_TEXT = ("pair and tuple members are modelled as the member-wise expansion 
               "synthesised from an asymmetric <, form a strict total order with its derived relations for strict total element "
               "orders, and for double elements equal std::pair's exactly on the inputs outside the NaN class of the known finding "
               "(and differ on every input inside it); (b) tuple == never fails and is list equality for every arity including 0; (c) "
-              "tuple_cat of one or more tuples is their concatenation and never reads out of range; (d) for every history of "
+              "tuple_cat of any number of tuples (none included) is their concatenation and never reads out of range; (d) for every history of "
               "construct/copy/move/assign/member swap/free swap/reset/call/compare-with-nullptr on inplace_function (any length, any "
-              "number of objects, including self-assignment and self-swap) the thunk machine never fails (no use of a destroyed "
+              "number of objects, including self-assignment and self-swap; construction and assignment from a source expression of "
+              "each of the four value categories, of the same or of another specialisation: the model selects the constructor by "
+              "the category - only a non-const rvalue relocates, the closure constructor is never viable for an inplace_function "
+              "source -; from_empty_is_empty: whatever the category, a wrapper made or assigned from an empty one reports empty and "
+              "never calls) the thunk machine never fails (no use of a destroyed "
               "closure, no construction over a live one), keeps vtable and storage consistent, leaves no temporary alive, and refines "
               "the abstract owner semantics: copies call an equivalent target, a move empties the source, swap (member or free) "
               "exchanges, an empty object reports bad_function_call, compares equal to nullptr and logs nothing, a call logs exactly "
@@ -471,9 +627,21 @@ LEVEL_TEXT = ("pair and tuple members are modelled as the member-wise expansion 
               "pointer member the model computes forwards is the target the specification resolves backwards from the most recent "
               "operation (refPtrs_designates), a copy designates the source's target, an assignment rebinds only the assigned wrapper, "
               "and a call through any wrapper is exactly one call of the designated target.  Also stated and proved, but with little "
-              "proof content because model and specification are the same few lines: (e) the member-wise pair/tuple operations "
-              "(default/copy/move construction, assignment, swap, get, make_from_tuple - the converting constructors and assignments "
-              "of pair and tuple are the same member-wise expansions, their element conversions int->long / short->int preserve "
+              "proof content because model and specification are the same few lines: (e) the member-wise pair/tuple operations (pair move assignment is modelled as "
+              "`first = forward<first_type>(p.first)` and the converting move assignment as `first = forward<U1>(p.first)`, after "
+              "the fix commits of this round: for a reference element the forwarded expression is an lvalue, so the model "
+              "copy-assigns the referent (counted) and leaves it unchanged; construction cost - copyCost / moveCost: a reference is "
+              "bound - and assignment cost - assignCost / moveAssignCost: assigned through - are separate functions of the kind; "
+              "convAssignAll_eq / convMoveAssignAll_eq: the converting assignments, a two-step model - value category of "
+              "forward<U>(p.first), then the assignment operator of the class -, equal the map/sum form of [pairs.pair] over the SOURCE "
+              "kinds; convAssignAll_same / convMoveAssignAll_same: with equal kinds on both sides they are assignAll / moveAssignAll; "
+              "convMoveAssign_keeps_referents: a source whose elements are all of reference kind is left unchanged by a move "
+              "assignment) "
+              "(default/copy/move construction, assignment, swap, get, make_from_tuple - for target kinds with an "
+              "initializer_list constructor, aggregates, explicit constructors and narrowing parameters the model initialises with "
+              "parentheses as the header does and equals the direct-non-list-initialisation of [tuple.apply] (makeFromTupleT_eq); "
+              "listInit_differs / listInit_same state exactly for which kinds braces would differ - the converting constructors and "
+              "assignments of pair and tuple are the same member-wise expansions, their element conversions int->long / short->int preserve "
               "values) equal their map/sum form for every arity and kind list (bookkeeping identities: the recursion is a map); (f) "
               "the outcome of a call through invoke, reference_wrapper, function_ref, bind_front, not_fn, not_fn<ConstFn>() and apply "
               "- also around a pointer to member - satisfies the predicate Spec.CalledOnce (exactly one log entry, for the wrapped "
@@ -486,7 +654,7 @@ LEVEL_NOTE = ("Trusted: Lean kernel + propext/Classical.choice/Quot.sound; the h
               "!INVOKE / call).  Value-category preservation as a type-level fact (decltype) is not carried by the value-level model "
               "and not proved: it is checked by a compile-time static_assert matrix against libstdc++ (coverage.unproved_observed) "
               "and, where the headers are known to differ, reported at run time as KNOWN-FINDING lines.  Not generated (see "
-              "coverage.unproved_observed): tuples of arity 3 beyond the 14 instantiated kind lists, tuple_cat() without arguments, "
+              "coverage.unproved_observed): tuples of arity 3 beyond the 14 instantiated kind lists, "
               "get<T&>(pair&&) (does not compile in libstdc++ 12).")
 UNPROVED_OBSERVED = [
     "value-category / element-type preservation (decltype): static_assert matrix in harness/c20.cpp — get<I> on pair and tuple for all 49 "
@@ -503,7 +671,7 @@ UNPROVED_OBSERVED = [
     "aliasing of get<T> / structured bindings / tie / forward_as_tuple (the names designate the elements themselves): address comparisons "
     "in the harness (`!alias`), no model",
     "NOT exercised at all (neither generated nor modelled): tuples of arity 3 outside the 14 instantiated kind lists and of arity > 3; "
-    "tuple_cat of more than 3 tuples, of pairs / arrays, and tuple_cat() with no argument (hard error in etl, tuple<> in std); "
+    "tuple_cat of more than 3 tuples, of arrays (of pairs: result type only, typeq q=tuple_cat_pair_elements); "
     "get<T>(pair&&) / get<T>(tuple&&) with a reference element (libstdc++ 12 does not compile the pair form); allocator-extended and "
     "piecewise construction (absent from etl)",
 ]
@@ -520,6 +688,19 @@ CORRESPONDENCE_ONLY = [
     "the number of copies made while binding arguments (bind_front), while copying a wrapper, by tuple_cat (driver: copyAll / moveAll over "
     "the flattened elements, chosen by the category of the argument tuples) and while passing a by-value argument (function_ref, "
     "inplace_function): computed by the driver from the argument categories, no theorem",
+    "inplace_function: which constructor overload resolution selects for a source expression of a given category (Model.selectCtor: 4 rows, "
+    "transcribed from the constraints of the three competing constructors) and make_from_tuple: which constructor of the target "
+    "type parentheses select (Model.parenInit, one row per target kind) are tables about C++ overload resolution; the theorems "
+    "relate them to the specification's tables (Spec.gives, Spec.directInit) and the tie to the code is the correspondence run "
+    "(conversion matrix, mft lines), which is what catches a changed constraint / a changed initialisation form",
+    "Spec.listInit (what T{x...} would do) is not behaviour of the library: it is validated against g++ by the form=brace lines "
+    "(both harness columns are the compiler's) and used only by listInit_differs / listInit_same",
+    "pair element kinds 6 / 7 (instrumented&, instrumented const&) are instantiated only with each other and with {int, instrumented "
+    "class, int&} (16 of the 28 new combinations) and the converting assignments only for the 10 combinations of XKINDS; "
+    "is_assignable_v of etl::pair and std::pair for these combinations is compared by static_assert (pair_xop); get<I>(rvalue pair) of "
+    "a reference element is observed by binding a reference, not by constructing an object; the destination kind of a converting "
+    "assignment has no effect in the model beyond applicability; kinds 6 / 7 are not generated for tuple / tuple_cat (compile time; "
+    "tuple move assignment goes through get<I>(move(other)) and was found correct by a probe)",
     "Lemmas.invoke_spec / refWrap_spec / functionRef_spec / bindFront_spec / notFn_spec / apply_spec (model = executable spec): "
     "transcription checks between two copies of the same few lines, deliberately not counted as property theorems",
 ]
@@ -527,7 +708,8 @@ P = "Tetl.C20.Props."
 THEOREMS = {
     "pair": [P + n for n in ("pair_rels_eq_synth3", "pair_rels_dbl_iff", "pair_rels_dbl_partial", "pair_lt_iff", "pair_trichotomy",
                              "pair_derived", "pair_lt_trans", "defaultAll_eq", "copyAll_eq", "moveAll_eq", "assignAll_eq",
-                             "moveAssignAll_eq", "swapAll_eq", "getAll_eq")],
+                             "moveAssignAll_eq", "swapAll_eq", "getAll_eq", "convAssignAll_eq", "convMoveAssignAll_eq",
+                             "convAssignAll_same", "convMoveAssignAll_same", "convMoveAssign_keeps_referents")],
     "tuple": [P + n for n in ("tuple_eq_iff", "defaultAll_eq", "copyAll_eq", "moveAll_eq", "assignAll_eq", "moveAssignAll_eq",
                               "swapAll_eq", "getAll_eq", "makeFromTuple_eq", "apply_once", "applyMember_once", "applyMember_data")],
     "tcat": [P + "tuple_cat_eq", P + "copyAll_eq", P + "moveAll_eq"],
@@ -540,7 +722,9 @@ THEOREMS = {
     "nf": [P + "notFn_once", P + "notFnOf_once", P + "notFnOf_data"],
     "nfc": [P + "notFnOf_once", P + "notFnOf_data"],
     "ifn": [P + n for n in ("step_refines", "run_refines", "run_never_errors", "empty_never_calls", "call_once", "fswap_exchanges",
-                            "null_comparison")],
+                            "null_comparison", "copy_equivalent", "move_transfers", "assign_equivalent", "swap_exchanges",
+                            "from_empty_is_empty")],
+    "mft": [P + "makeFromTupleT_eq", P + "listInit_differs", P + "listInit_same", P + "getAll_eq"],
     "new": [P + "run_refines"],
 }
 
